@@ -65,6 +65,33 @@ mut("compile_cache", ["C08"], "sweep/globals/written-outside-init",
 mut("unknown_variable_registers_key", ["C08"], "sweep/configwrites:compile/",
     [("parser.go", "\tp.walk()\n\treturn &astNode{\n\t\tnode: &node{\n\t\t\tflag:   variable,\n\t\t\tvalue:  t.val,\n\t\t\tvarKey: UndefinedVarKey,", "\tp.walk()\n\tp.conf.VariableKeyMap[t.val] = UndefinedVarKey\n\treturn &astNode{\n\t\tnode: &node{\n\t\t\tflag:   variable,\n\t\t\tvalue:  t.val,\n\t\t\tvarKey: UndefinedVarKey,")], "bookkeeping write through p.conf outside parseConfig (harmless only because conf is a copy; flagged as an unexpected write path)")
 
+# ---- C06 (evaluator under WF, parser safety); the repaired defects double as canaries
+mut("eval_stack_class_16_gets_8", ["C06"], "Expr.Eval/inv/loop1[stack",
+    [("engine.go", "func (e *Expr) Eval(ctx *Ctx) (res Value, err error) {\n\tvar (\n\t\tnodes = e.nodes\n\t\tsize  = int16(len(nodes))\n\t\tm     = e.maxStackSize\n\n\t\tos    []Value\n\t\tosTop = int16(-1)\n\t)\n\n\tswitch {\n\tcase m <= 8:\n\t\tos = make([]Value, 8)\n\tcase m <= 16:\n\t\tos = make([]Value, 16)",
+      "func (e *Expr) Eval(ctx *Ctx) (res Value, err error) {\n\tvar (\n\t\tnodes = e.nodes\n\t\tsize  = int16(len(nodes))\n\t\tm     = e.maxStackSize\n\n\t\tos    []Value\n\t\tosTop = int16(-1)\n\t)\n\n\tswitch {\n\tcase m <= 8:\n\t\tos = make([]Value, 8)\n\tcase m <= 16:\n\t\tos = make([]Value, 8)")], "operand stack class 9..16 allocates 8 slots")
+mut("eval_jump_keeps_slot", ["C06"], "Expr.Eval/",
+    [("engine.go", "\t\t\t\tcurt = nodes[i]\n\t\t\t\tosTop = curt.osTop - 1\n\t\t\t}\n\t\t}\n\n\t\tos[osTop+1], osTop = res, osTop+1\n\t}\n\treturn os[0], nil\n}\n\nfunc (e *Expr) TryEval",
+      "\t\t\t\tcurt = nodes[i]\n\t\t\t\tosTop = curt.osTop\n\t\t\t}\n\t\t}\n\n\t\tos[osTop+1], osTop = res, osTop+1\n\t}\n\treturn os[0], nil\n}\n\nfunc (e *Expr) TryEval")], "short-circuit jump leaves the stack pointer one too high")
+mut("eval_swallows_operator_error", ["C06"], "Expr.Eval/post/error-identity",
+    [("engine.go", "\t\t\tres, err = curt.operator(ctx, params)\n\t\t\tif err != nil {\n\t\t\t\treturn\n\t\t\t}\n\t\tcase cond:\n\t\t\tres, osTop = os[osTop], osTop-1\n\t\t\tres, err = curt.operator(ctx, []Value{res})\n\t\t\tif err != nil {\n\t\t\t\treturn\n\t\t\t}\n\t\t\tif res == true {\n\t\t\t\tosTop = curt.osTop\n\t\t\t\ti = curt.scIdx\n\t\t\t}\n\t\t\tcontinue\n\t\tdefault:\n\t\t\treportEvent(e, os, osTop, curt.value)\n\t\t\tcontinue\n\t\t}\n\t\tif b, ok",
+      "\t\t\tres, err = curt.operator(ctx, params)\n\t\t\tif err != nil {\n\t\t\t\terr = errors.New(\"operator failed\")\n\t\t\t\treturn\n\t\t\t}\n\t\tcase cond:\n\t\t\tres, osTop = os[osTop], osTop-1\n\t\t\tres, err = curt.operator(ctx, []Value{res})\n\t\t\tif err != nil {\n\t\t\t\treturn\n\t\t\t}\n\t\t\tif res == true {\n\t\t\t\tosTop = curt.osTop\n\t\t\t\ti = curt.scIdx\n\t\t\t}\n\t\t\tcontinue\n\t\tdefault:\n\t\t\treportEvent(e, os, osTop, curt.value)\n\t\t\tcontinue\n\t\t}\n\t\tif b, ok")], "Eval replaces the operator's error by its own")
+mut("tryeval_climb_skips_stack_reset", ["C06"], "Expr.TryEval/",
+    [("engine.go", "\t\t\t} else {\n\t\t\t\tosTop = curt.osTop - 1\n\t\t\t}", "\t\t\t} else if curt.childCnt != 3 {\n\t\t\t\tosTop = curt.osTop - 1\n\t\t\t}")], "TryEval forgets the stack reset when climbing past a three-operand parent")
+mut("tryeval_break_target_off", ["C06"], "Expr.TryEval/",
+    [("engine.go", "\t\t\t\ti = nodes[curt.scIdx].scIdx\n\t\t\t\tosTop = nodes[i].osTop - 1", "\t\t\t\ti = curt.scIdx\n\t\t\t\tosTop = nodes[i].osTop - 1")], "DNE through an if continues at the fi marker instead of behind the false branch")
+mut("canary_F1_empty_source", ["C06"], "parser.check/safety/index:p.tokens[0]",
+    [("parser.go", "\t\t(last < 0 || p.tokens[0].typ != lParen || p.tokens[last].typ != rParen) {", "\t\t(p.tokens[0].typ != lParen || p.tokens[last].typ != rParen) {")], "reverts the F1 repair")
+mut("canary_F2_list_end", ["C06"], "parser.parseList.$1/safety/index:T[i+1]",
+    [("parser.go", "\t\tif T[i].typ != leftType || i+1 >= len(T) {", "\t\tif T[i].typ != leftType {")], "reverts the F2 repair")
+mut("canary_F3_pop_guard", ["C06"], "parser.parseInfixExpression/",
+    [("parser.go", "\t\t\t\tif cnt < 0 || cnt > len(outputStack) {", "\t\t\t\tif cnt > len(outputStack)+1 {")], "weakens the F3 repair")
+mut("canary_F4_eq_lists", ["C06", "C18"], "comparisonEquals/safety/comparable",
+    [("operator.go", "\t\tif isUncomparable(params[0]) && isUncomparable(params[1]) {\n\t\t\treturn nil, ParamTypeError(modeNames[equals], typeInt, params[1])\n\t\t}\n\t\treturn params[0] == params[1], nil", "\t\treturn params[0] == params[1], nil")], "reverts the F4 repair for two-operand eq")
+mut("lexer_string_cursor", ["C06"], "parser.lex/",
+    [("parser.go", "\t\t\t\tif A[i] == '\"' {\n\t\t\t\t\ti++\n\t\t\t\t\treturn string(A[start:i]), nil", "\t\t\t\tif A[i] == '\"' {\n\t\t\t\t\ti += 2\n\t\t\t\t\treturn string(A[start:i]), nil")], "string token swallows the rune after the closing quote (runs past the end of the source)")
+mut("check_inbracket_index", ["C06"], "parser.check/",
+    [("parser.go", "\t\tif prefixNotation && parenCnt == 0 && i != last {", "\t\tif prefixNotation && parenCnt == 0 && p.tokens[i+1].typ != comment {")], "structural pre-check peeks one token ahead without a bound")
+
 def main():
     out = os.path.join(os.path.dirname(os.path.abspath(__file__)), "mutants")
     os.makedirs(out, exist_ok=True)
